@@ -7,7 +7,7 @@
 //       value flow disabled through DISABLE_VALUEFLOW=1, it runs after the AST exists).  Output
 //         ok <tokens of the LAST function body> | <tree> ; <tree> ...
 //       tokens: <hexstr>:<flags> with flags out of  N name, V varId != 0, S standard type, L number/literal,
-//       K keyword, C isCast;  - if none.  One tree per token of that body that has operands and no parent, in
+//       K keyword, C isCast, T `<`/`>` linked as template bracket;  - if none.  One tree per token of that body that has operands and no parent, in
 //       token order.  Tree = Polish prefix, every node `<str>/<m>` with m = 0 leaf, 1 operand1 only, 2 operand2
 //       only, 3 both; operands follow in the order operand1, operand2.
 //         err <InternalError id>:<message>      the tokenizer rejected the input
@@ -58,6 +58,7 @@ static std::string flags(const Token* t) {
     if (t->isLiteral()) f += 'L';
     if (t->isKeyword()) f += 'K';
     if (t->isCast()) f += 'C';
+    if (t->link() && (t->str() == "<" || t->str() == ">")) f += 'T';
     return f.empty() ? "-" : f;
 }
 
